@@ -476,12 +476,22 @@ static std::string gen_dblhist(Rng &rng, int solver) {
     l << pl.get();
     long n = rng.range(4, 9), len = rng.range(2, 3);
     static const Q big = Q::parse("1" + std::string(200, '0'));
+    // how the leading call(s) fail: 0 overflow (entries * 10^200), 1 the zero matrix on the same pattern (zero pivots /
+    // breakdown exceptions: the call THROWS after it has written into the work space), 2 a singular matrix (all stored
+    // entries 1), 3 overflow in the right-hand side only, 4 zero matrix as the solve-time matrix with a huge rhs
+    const long mode = rng.range(0, 4);
     l << n << len;
     for (long j = 0; j < len; ++j) {
         Mat A = gen_spd(rng, n, 0);
         if (A.n != n) { Dense D(n, std::vector<Q>(n)); for (long i = 0; i < n; ++i) { D[i][i] = Q(4); if (i) D[i][i-1] = Q(-1); if (i + 1 < n) D[i][i+1] = Q(-1); } A = dense_to_mat(D); }
-        if (j + 1 < len) for (auto &v : A.val) v = v * big;            // the failing calls come first
-        l << A << "id" << gen_vec(rng, n, true) << std::vector<Q>(n, Q(0));
+        std::vector<Q> f = gen_vec(rng, n, true);
+        if (j + 1 < len) {                                             // the failing calls come first
+            if (mode == 0) for (auto &v : A.val) v = v * big;
+            else if (mode == 1 || mode == 4) for (auto &v : A.val) v = Q(0);
+            else if (mode == 2) for (auto &v : A.val) v = Q(1);
+            if (mode == 3 || mode == 4) for (auto &v : f) v = v * big;
+        }
+        l << A << "id" << f << std::vector<Q>(n, Q(0));
     }
     return l.get();
 }
@@ -545,7 +555,7 @@ static void generate(Rng &rng, const Opts &o, std::vector<std::string> &lines) {
     lines.push_back("solve_gmres right 2 3 0 0 0 2 2 1 0 1 1 1 1 id 2 1 2 2 0 0 7");             // trailing token
     lines.push_back("solve_gmres right 2 3 0 0 0 2 2 1 0 1 1 1 1 id 2 1 2 2 0");                 // x0 too short
     lines.push_back("hist_gmres right 2 3 0 0 0 2 2 2 2 1 0 1 1 1 1 id 2 1 2 2 0 0 1 1 1 0 1 id 1 1 1 0");   // second call has another n
-    for (int rep = 0; rep < (o.thorough() ? 12 : 3); ++rep) for (int solver = S_GMRES; solver <= S_BICGSTABL; ++solver) lines.push_back(gen_dblhist(rng, solver));
+    for (int rep = 0; rep < (o.thorough() ? 30 : 8); ++rep) for (int solver = S_GMRES; solver <= S_BICGSTABL; ++solver) lines.push_back(gen_dblhist(rng, solver));
     const long nmax = o.thorough() ? 8 : 6;
     for (long k = 0; k < N; ++k) {
         Line l;
